@@ -561,6 +561,27 @@ Example save_under_lock_same_schedule :
   c_reads c = [(1%nat, FRec (0, 0))] /\ all_done c = true /\ c_file c = FRec (5, 5).
 Proof. vm_compute. auto. Qed.
 
+(* saveStdoutSize as "Load ; Save" (seeded mutation) instead of one UpdateFullStatus: both halves
+   hold the lock, and still the update that falls between them is overwritten by the stale record *)
+Definition loadsave_and_writer : list (list (op (N * N)) * (N * N)) :=
+  [([OLoad; OSave], (9, 9)); ([OUpd inc_fst], (0, 0))].
+Definition loadsave_sched : list nat := [0; 0; 0; 0; 1; 1; 1; 1; 1; 1; 1; 0; 0; 0; 0]%nat.
+
+Theorem load_then_save_refuted :
+  let c := run true loadsave_sched (init (FRec (0, 0)) loadsave_and_writer) in
+  all_done c = true /\ c_lock c = None /\
+  upd_fns (c_order c) = [inc_fst] /\ c_file c = FRec (0, 0) /\
+  apply_all (upd_fns (c_order c)) (0, 0) = (1, 0).
+Proof. vm_compute. auto. Qed.
+
+(* as /repo does it - one update that sets the size (second component) - nothing is lost, whatever
+   the order *)
+Example size_update_keeps_other_field :
+  let progs := [([OUpd (fun r : N * N => (fst r, 7))], (9, 9)); ([OUpd inc_fst], (0, 0))] in
+  c_file (run true [0; 0; 0; 1; 0; 0; 0; 0; 1; 1; 1; 1; 1; 1; 1]%nat (init (FRec (0, 0)) progs)) = FRec (1, 7) /\
+  c_file (run true [1; 1; 1; 1; 1; 1; 1; 0; 0; 0; 0; 0; 0; 0]%nat (init (FRec (0, 0)) progs)) = FRec (1, 7).
+Proof. vm_compute. auto. Qed.
+
 (* ---------- the counters of the stress harness ---------- *)
 
 Lemma nth_upd_eq {A} n (x d : A) l : (n < length l)%nat -> nth n (upd n x l) d = x.
